@@ -20,8 +20,9 @@ sys.path.insert(0, HERE)
 
 LOCK = os.path.join(HERE, "obligations.lock")
 KNOWN = os.path.join(HERE, "KNOWN_FINDINGS.txt")
-EVID = os.path.join(HERE, "evidence")
-REPLAY = os.path.join(HERE, "replays")
+_OUT = os.environ.get("VERIF_OUT", HERE)      # tools/matrix.py redirects the outputs of runs on scratch copies
+EVID = os.path.join(_OUT, "evidence")
+REPLAY = os.path.join(_OUT, "replays")
 
 
 def load_contracts():
